@@ -219,6 +219,20 @@ def run(ck: Check):
                     ck.violation(f"crashes/hangs verdict for exit={code} sig={sig} sleep={sleep}: "
                                  f"crashes={gc} hangs={gh}, expected {wc}/{wh}",
                                  {"code": code, "sig": sig, "sleep": sleep, "files": mode is not None})
+            # a time limit of 0 is a time limit: a child that is still running when it is reached (at once) is a
+            # hang, and the call returns without waiting for it
+            import time as _time
+            src = child(0, sleep=2)
+            t0 = _time.monotonic()
+            gh = hangs.interesting(["-t", "0", PY, "-c", src, "", "0", "", "0"], mode)
+            gc = crashes.interesting(["-t", "0", PY, "-c", src, "", "0", "", "0"], mode)
+            el = _time.monotonic() - t0
+            ck.count("verdict", 2)
+            ck.nontrivial(("verdict", "t0", mode is not None))
+            if gh is not True or gc is not False or el > 1.5:
+                ck.violation(f"-t 0 with a child that runs for 2 s: hangs={gh} crashes={gc} after {el:.2f} s; "
+                             f"expected hangs=True crashes=False at once (TIMEOUT exactly when still running at the limit)",
+                             {"timeout": 0, "sleep": 2, "files": mode is not None})
     finally:
         shutil.rmtree(work, ignore_errors=True)
     model = run_model(cases)
